@@ -19,7 +19,7 @@ ASSUMPTIONS = ["attribute selectors and pseudo-classes without selector argument
 
 
 def plan(tier):
-    return {"budget_s": 60 if tier == "quick" else 600, "profiles": ["R"], "min_evaluations": 3000, "params": {"nodes": 3 if tier == "quick" else 4}}
+    return {"budget_s": 60 if tier == "quick" else 600, "profiles": ["R"], "min_evaluations": 500, "params": {"nodes": 3 if tier == "quick" else 4}}
 
 
 def q(s):
